@@ -359,7 +359,7 @@ impl Ctx {
             self.rep.bump("base_runtime_panic");
         }
         self.rep.case(&base.src, base_lines.len() >= 3);
-        if index % 8 == 0 || thorough {
+        if index % 8 == 0 || (thorough && index % 2 == 0) {
             self.trace_k(&base.src, "base");
         }
         self.cut_sweep(&base_lines, "base", index % 16 == 0);
@@ -431,7 +431,7 @@ impl Ctx {
                 self.rep.sample(json!({"kind": "variant", "class": class, "freedoms": used.iter().map(|(k, n)| format!("{}×{}", k, n)).collect::<Vec<_>>(),
                     "base": base.src, "variant": src, "behaviour": base.beh, "ast_equal": true}));
             }
-            let k_this = if thorough { vi % 3 == 0 } else { (index + vi) % 16 == 0 };
+            let k_this = if thorough { (index + vi) % 5 == 0 } else { (index + vi) % 16 == 0 };
             if k_this {
                 self.trace_k(&src, class);
             }
